@@ -27,13 +27,13 @@ def gen_case(rng, profile):
     cap = rng.weighted([(1, 45), (2, 35), (3, 20)])
     ops = ["Q %d" % cap]
     nclones = 0
-    w = {"c": 16, "d": 8, "s": 5, "r": 4, "q": 14, "u": 26, "k": 5, "x": 3, "F": 7, "D": 5, "T": 1, "X": 1}
+    w = {"c": 16, "d": 8, "s": 5, "r": 4, "q": 14, "u": 26, "k": 5, "x": 3, "F": 7, "D": 5, "T": 1, "X": 1, "Z": 1}
     if profile == "churn":
         w.update({"c": 22, "d": 14, "F": 12, "k": 8, "u": 22})
     elif profile == "pressure":
         w.update({"u": 40, "q": 18, "c": 10})
     elif profile == "term":
-        w.update({"T": 5, "X": 4, "k": 9, "x": 6})
+        w.update({"T": 4, "X": 4, "Z": 5, "k": 9, "x": 6, "F": 9})
     pairs = list(w.items())
     # most cases start with something connected and a clone around
     if rng.chance(70):
@@ -43,7 +43,7 @@ def gen_case(rng, profile):
         nclones += 1
     for i in range(n):
         k = rng.weighted(pairs)
-        if k in ("T", "X") and profile != "term" and 3 * i < 2 * n:
+        if k in ("T", "X", "Z") and profile != "term" and 3 * i < 2 * n:
             k = "u"   # keep the root alive for most of the schedule
         if k in ("c", "d", "s", "r"):
             ops.append("%s %d" % (k, rng.below(NL)))
@@ -88,7 +88,7 @@ def classify(case, out):
     ks.append("ops<=15" if n <= 15 else "ops<=30" if n <= 30 else "ops>30")
     for tag, key in (("u:blk", "update-blocked-mid-snapshot"), ("c:gone", "connect-after-gone"), ("q:gone", "query-gone"),
                      ("d:ok", "disconnect"), ("s:ok", "suspend"), ("r:ok", "resume"), ("x:ok", "clone-dropped"),
-                     ("T:ok", "terminate"), ("X:ok", "root-dropped"), ("F:term", "clone-sees-terminate"), ("D:term", "clone-sees-terminate")):
+                     ("T:ok", "terminate"), ("Z:ok", "terminate-gate-kept"), ("X:ok", "root-dropped"), ("F:term", "clone-sees-terminate"), ("D:term", "clone-sees-terminate")):
         if tag in toks[:n]:
             ks.append(key)
     d = _deliveries(out)
@@ -110,6 +110,9 @@ def corpus():
         "c 0;u 0;u 0;u 0;T;q 0;q 0;q 0;q 0",
         "k;k;c 0;u 1;u 1;u 1;u 2;x 2;X;q 0;D 1;u 1;x 1;q 0;q 0;q 0;q 0",
         "Q 1;c 0;c 2;c 4;u 0;u 0;k;u 1;d 2;c 3;q 0;q 0;q 4;c 2;u 0;T",
+        # Terminate must reach the clones through their command queues (the gate object is still alive)
+        "k;k;c 0;u 1;Z;F 1;u 2;D 2;u 0;c 1;X;q 0;q 0;q 0;q 0",
+        "k;c 1;Z;u 1;F 1;x 1;X",
     ]
 
 
